@@ -2,6 +2,7 @@ import Srtla.Model.Sys
 import Srtla.Lemmas.Uplink
 import Srtla.Lemmas.SelectFrame
 import Srtla.Props.C15
+import Srtla.Lemmas.RunLevelRelay
 /-!
 # C09 — the return path relays receiver traffic to the SRT client unmodified
 
@@ -303,6 +304,119 @@ example :
     ((@handleUplinkPacket Int Select.fixScalar exSys 7 exSrtlaAck 5000).1.links.map (·.core.proofMs)) = [3000, 5000] ∧
     ((@handleUplinkPacket Int Select.fixScalar exSys 7 exEcho 5000).1.links.map (·.core.proofMs)) = [5000, 0] ∧
     ((@handleUplinkPacket Int Select.fixScalar exSys 7 [0x92, 0x10] 5000).1.links.map (·.core.proofMs)) = [0, 0] := by
+  decide +kernel
+
+/-! ## Run level: the whole return path of a run -/
+
+/-- `relayable` (the Boolean the run-level statements use) is the hypothesis set of `C09_relay`: the conn
+id is carried by a link, the datagram has two or more bytes, and its type code is not SRTLA-internal. -/
+theorem C09_relayable_iff (known : List Nat) (connId : Nat) (data : Codec.Bytes) :
+    relayable known connId data = true ↔
+      (2 ≤ data.length ∧ connId ∈ known ∧ ∀ pt, Codec.getPacketTypeS data = some pt → ¬ Internal pt) := by
+  unfold relayable
+  have hint : ∀ pt, internalType pt = true ↔ Internal pt := by
+    intro pt
+    simp only [internalType, Bool.or_eq_true, beq_iff_eq, Internal, Registration]
+    omega
+  cases hp : Codec.getPacketTypeS data with
+  | none =>
+    simp only [Bool.and_false, Bool.false_eq_true, false_iff, not_and]
+    intro hlen
+    obtain ⟨pt, h⟩ := type_of_len data hlen
+    rw [hp] at h; cases h
+  | some pt =>
+    have hlen : 2 ≤ data.length := by
+      match data, hp with
+      | _ :: _ :: _, _ => simp
+    simp only [Bool.and_eq_true, List.contains_eq_mem, decide_eq_true_eq, Bool.not_eq_true', Option.some.injEq,
+      forall_eq']
+    constructor
+    · rintro ⟨h1, h2⟩
+      refine ⟨hlen, h1, fun hi => ?_⟩
+      rw [(hint pt).2 hi] at h2; cases h2
+    · rintro ⟨-, h1, h2⟩
+      refine ⟨h1, ?_⟩
+      cases hi : internalType pt
+      · rfl
+      · exact absurd ((hint pt).1 hi) h2
+
+/-- **The relay log of a run** (`C09_relay_run`).  Conn ids distinct, a client address known at the start
+(it stays known).  For EVERY event list — uplink datagrams of any content on any socket, interleaved with
+client datagrams, flush and housekeeping ticks, config changes, send-failure injections — the
+concatenation of everything sent to the SRT client during the run is EXACTLY: the relayable uplink
+datagrams (`relayables`: arrived on a conn id carried by a link, two or more bytes, type not
+SRTLA-internal — `C09_relayable_iff`), in arrival order, byte for byte, each once — except that an SRT ACK
+(type 0x8002) appears twice, back to back (`relayCopies`: the latency fast path inside
+`process_uplink_packet` and then the normal forward list; always both, because the fast path is taken
+exactly when a client address is known).  Nothing else is ever sent to the client: no internal datagram,
+nothing invented, nothing reordered, nothing from any other arm of the event loop. -/
+theorem C09_relay_run (s : Sys F) (hnd : (ids s.links).Nodup) (hck : s.clientKnown = true) (evs : List Ev) :
+    clientLog (run s evs).2 = (relayables (ids s.links) evs).flatMap relayCopies ∧
+    (∀ d, relayCopies d = if Codec.getPacketTypeS d = some 0x8002 then [d, d] else [d]) := by
+  refine ⟨?_, fun _ => rfl⟩
+  rw [run_client_log s hnd evs, hck, relayLog_true]
+
+/-- The three readings of `C09_relay_run`: (1) every relayable datagram is delivered, in arrival order
+(the relayable arrivals are a subsequence of the client log); (2) everything delivered is, byte for byte,
+an uplink datagram of the run that arrived on a link's conn id, has two or more bytes and is not
+SRTLA-internal — no internal datagram reaches the client, nothing is invented; (3) the client stays
+known. -/
+theorem C09_relay_run_reading (s : Sys F) (hnd : (ids s.links).Nodup) (hck : s.clientKnown = true) (evs : List Ev) :
+    (relayables (ids s.links) evs).Sublist (clientLog (run s evs).2) ∧
+    (∀ d ∈ clientLog (run s evs).2, ∃ now connId, Ev.uplink now connId d ∈ evs ∧
+      2 ≤ d.length ∧ (∃ l ∈ s.links, l.core.connId = connId) ∧
+      ∀ pt, Codec.getPacketTypeS d = some pt → ¬ Internal pt) ∧
+    (∀ now connId d, Ev.uplink now connId d ∈ evs → 2 ≤ d.length → (∃ l ∈ s.links, l.core.connId = connId) →
+      (∀ pt, Codec.getPacketTypeS d = some pt → ¬ Internal pt) → d ∈ clientLog (run s evs).2) := by
+  rw [(C09_relay_run s hnd hck evs).1]
+  have hids : ∀ c, c ∈ ids s.links ↔ ∃ l ∈ s.links, l.core.connId = c := by
+    intro c; simp [ids]
+  refine ⟨sublist_flatMap_relayCopies _, ?_, ?_⟩
+  · intro d hd
+    obtain ⟨now, cid, h1, h2⟩ := mem_relayables.1 (mem_flatMap_relayCopies.1 hd)
+    obtain ⟨a, b, c⟩ := (C09_relayable_iff _ _ _).1 h2
+    exact ⟨now, cid, h1, a, (hids cid).1 b, c⟩
+  · intro now cid d h1 h2 h3 h4
+    exact mem_flatMap_relayCopies.2
+      (mem_relayables.2 ⟨now, cid, h1, (C09_relayable_iff _ _ _).2 ⟨h2, (hids cid).2 h3, h4⟩⟩)
+
+/-- **Before a client is known** nothing is relayed, over any stretch of events that contains no non-empty
+client datagram; the first non-empty client datagram makes the client known, and from the next event on
+the log is as in `C09_relay_run`. -/
+theorem C09_relay_run_from_unknown (s : Sys F) (hnd : (ids s.links).Nodup) (hck : s.clientKnown = false) :
+    (∀ evs, noClient evs = true → clientLog (run s evs).2 = []) ∧
+    (∀ pre now pkt post, noClient pre = true → pkt ≠ [] →
+      clientLog (run s (pre ++ .client now pkt :: post)).2 = (relayables (ids s.links) post).flatMap relayCopies) := by
+  constructor
+  · intro evs h
+    rw [run_client_log s hnd evs, hck, relayLog_false_noClient _ _ h]
+  · intro pre now pkt post h hne
+    rw [run_client_log s hnd _, hck, relayLog_false_split _ _ _ _ _ h (by cases pkt <;> simp_all)]
+
+/-- The general form, any initial `clientKnown`: the client log is the pure function `relayLog` of the event
+list, the set of conn ids and the initial flag. -/
+theorem C09_relay_run_general (s : Sys F) (hnd : (ids s.links).Nodup) (evs : List Ev) :
+    clientLog (run s evs).2 = relayLog (ids s.links) s.clientKnown evs :=
+  run_client_log s hnd evs
+
+/-- A run on the example shell (links 7 and 9, client known): a data packet on link 7, an SRTLA ACK
+(internal), an SRT ACK on link 9, a data packet on the unknown conn id 8, a one-byte datagram, a keepalive
+echo, and a housekeeping tick and a client datagram in between.  The client receives the data packet once
+and the SRT ACK twice, in arrival order, and nothing else. -/
+example :
+    clientLog (@run Int Select.fixScalar exSys
+      [.uplink 5000 7 exData, .uplink 5001 7 exSrtlaAck, .hk 5002, .uplink 5003 9 exSrtAck, .uplink 5004 8 exData,
+       .client 5005 exData, .uplink 5006 7 [0x80], .uplink 5007 7 exEcho]).2 = [exData, exSrtAck, exSrtAck] ∧
+    relayables [7, 9]
+      [.uplink 5000 7 exData, .uplink 5001 7 exSrtlaAck, .hk 5002, .uplink 5003 9 exSrtAck, .uplink 5004 8 exData,
+       .client 5005 exData, .uplink 5006 7 [0x80], .uplink 5007 7 exEcho] = [exData, exSrtAck] ∧
+    (@ids Int exSys.links).Nodup ∧ exSys.clientKnown = true := by
+  decide +kernel
+
+/-- From an unknown client: uplink traffic before the first client datagram is not relayed, after it it is. -/
+example :
+    clientLog (@run Int Select.fixScalar { exSys with clientKnown := false }
+      [.uplink 5000 7 exData, .client 5001 exData, .uplink 5002 7 exData]).2 = [exData] := by
   decide +kernel
 
 end Srtla.Props.C09
